@@ -220,7 +220,9 @@ enum DynAd<E: El, I: Item<E>> {
 
 enum Built<E: El, I: Item<E>> {
     Pair(Vector<E>, BoxS<I>),
-    Dyn(DynAd<E, I>),
+    /// the adapter value itself, plus the initial values its constructor
+    /// returned (None for the purely dynamic constructors)
+    Dyn(DynAd<E, I>, Option<Vector<E>>),
 }
 
 impl<E: El, I: Item<E>> DynAd<E, I> {
@@ -316,19 +318,42 @@ where
 }
 
 /// Build any stage on an erased (values, stream) pair.
-fn build_on_pair<E: El, I: Item<E>>(values: Vector<E>, s: BoxS<I>, kind: StageKind, stage: usize, obs_init: u8, log: &Log<E>) -> (Built<E, I>, LimCtl) {
+fn build_on_pair<E: El, I: Item<E>>(values: Vector<E>, s: BoxS<I>, kind: StageKind, stage: usize, obs_init: u8, log: &Log<E>, via_adapter: bool) -> (Built<E, I>, LimCtl) {
+    if via_adapter {
+        // keep the dynamic-with-initial-value adapter as a value so that the
+        // next stage is built on "the adapter itself" (into_parts with a
+        // non-zero limit)
+        match kind {
+            StageKind::Head(Lim::DynInit(n, src)) => {
+                let (l, ctl) = make_limit(src, stage, obs_init, log);
+                let (v, h) = (values, s).dynamic_head_with_initial_value(n as usize, l);
+                return (Built::Dyn(DynAd::Head(h), Some(v)), ctl);
+            }
+            StageKind::Tail(Lim::DynInit(n, src)) => {
+                let (l, ctl) = make_limit(src, stage, obs_init, log);
+                let (v, h) = (values, s).dynamic_tail_with_initial_value(n as usize, l);
+                return (Built::Dyn(DynAd::Tail(h), Some(v)), ctl);
+            }
+            StageKind::Skip(Lim::DynInit(n, src)) => {
+                let (l, ctl) = make_limit(src, stage, obs_init, log);
+                let (v, h) = (values, s).dynamic_skip_with_initial_count(n as usize, l);
+                return (Built::Dyn(DynAd::Skip(h), Some(v)), ctl);
+            }
+            _ => {}
+        }
+    }
     match kind {
         StageKind::Head(Lim::Dyn(src)) => {
             let (l, ctl) = make_limit(src, stage, obs_init, log);
-            (Built::Dyn(DynAd::Head((values, s).dynamic_head(l))), ctl)
+            (Built::Dyn(DynAd::Head((values, s).dynamic_head(l)), None), ctl)
         }
         StageKind::Tail(Lim::Dyn(src)) => {
             let (l, ctl) = make_limit(src, stage, obs_init, log);
-            (Built::Dyn(DynAd::Tail((values, s).dynamic_tail(l))), ctl)
+            (Built::Dyn(DynAd::Tail((values, s).dynamic_tail(l)), None), ctl)
         }
         StageKind::Skip(Lim::Dyn(src)) => {
             let (l, ctl) = make_limit(src, stage, obs_init, log);
-            (Built::Dyn(DynAd::Skip((values, s).dynamic_skip(l))), ctl)
+            (Built::Dyn(DynAd::Skip((values, s).dynamic_skip(l)), None), ctl)
         }
         _ => {
             let (v, s, ctl) = build_fixed::<E, I, _>((values, s), kind, stage, obs_init, log);
@@ -343,7 +368,7 @@ fn build_on_pair<E: El, I: Item<E>>(values: Vector<E>, s: BoxS<I>, kind: StageKi
 fn build_on_adapter<E: El, I: Item<E>>(ad: DynAd<E, I>, kind: StageKind, stage: usize, obs_init: u8, log: &Log<E>) -> (Built<E, I>, LimCtl) {
     if matches!(kind.lim(), Some(Lim::Dyn(_))) {
         let (v, s) = ad.into_pair();
-        return build_on_pair(v, s, kind, stage, obs_init, log);
+        return build_on_pair(v, s, kind, stage, obs_init, log, false);
     }
     let (v, s, ctl) = match ad {
         DynAd::Head(h) => build_fixed::<E, I, _>(h, kind, stage, obs_init, log),
